@@ -560,6 +560,8 @@ func init() {
 					}
 					fields = append(fields, field)
 				}
+				// in name order, like the fields of an object type
+				sort.Slice(fields, func(i, j int) bool { return fields[i].Name < fields[j].Name })
 				return fields, nil
 			}
 			return nil, nil
